@@ -26,6 +26,7 @@ impl World {
     /// run one op; a leading `~` marks a fidelity-only observable and is ignored here
     pub fn exec(&mut self, op: &str) -> String {
         let op = op.strip_prefix('~').unwrap_or(op);
+        let op = op.strip_prefix('!').unwrap_or(op);
         let f: Vec<&str> = op.split('\t').collect();
         if f[0] == "e.reload" {
             return self.ew.reload_scratch(&self.rt);
@@ -37,6 +38,73 @@ impl World {
             return self.ew.exec(&self.rt, &f);
         }
         match f[0] {
+            "cfg.parse" => {
+                let text = unesc(f[1]);
+                let rt = &self.rt;
+                let r = catch(move || rt.block_on(async move { casbin::DefaultModel::from_str(&text).await.map(|m| crate::c16::dump_model(&m)) }));
+                match r { None => "panic".into(), Some(Err(_)) => "err".into(), Some(Ok(s)) => s }
+            }
+            "cfg.roundtrip" => {
+                // to_text output parses back to the same definitions (implementation only)
+                let text = unesc(f[1]);
+                let rt = &self.rt;
+                let r = catch(move || rt.block_on(async move {
+                    use casbin::Model;
+                    let m = casbin::DefaultModel::from_str(&text).await?;
+                    let t = m.to_text();
+                    let m2 = casbin::DefaultModel::from_str(&t).await?;
+                    let (a, b) = (crate::c16::dump_model(&m), crate::c16::dump_model(&m2));
+                    Ok::<String, casbin::Error>(if a == b { "same".to_string() } else { format!("differs:{} VS {}", a, b) })
+                }));
+                match r { None => "panic".into(), Some(Err(_)) => "err".into(), Some(Ok(s)) => s }
+            }
+            "cfg.file" => {
+                // arbitrary bytes through DefaultModel::from_file and FileAdapter (totality; implementation only)
+                let bytes: Vec<u8> = (0..f[1].len() / 2).filter_map(|i| u8::from_str_radix(&f[1][2 * i..2 * i + 2], 16).ok()).collect();
+                let dir = "/verif/target/tmp"; std::fs::create_dir_all(dir).ok();
+                let path = format!("{}/noise{}.txt", dir, std::process::id());
+                std::fs::write(&path, &bytes).unwrap();
+                let rt = &self.rt;
+                let p2 = path.clone();
+                let r = catch(move || rt.block_on(async move {
+                    use casbin::{Adapter, CoreApi};
+                    let a = casbin::DefaultModel::from_file(p2.clone()).await.is_ok();
+                    let m = casbin::DefaultModel::from_str("[request_definition]\nr = a\n[policy_definition]\np = a\n[policy_effect]\ne = some(where (p.eft == allow))\n[matchers]\nm = r.a == p.a\n").await.unwrap();
+                    let mut m2 = m.clone();
+                    let mut fa = casbin::FileAdapter::new(p2.clone());
+                    let b = fa.load_policy(&mut m2).await.is_ok();
+                    let s = String::from_utf8_lossy(&std::fs::read(&p2).unwrap_or_default()).into_owned();
+                    let c = casbin::Enforcer::new(m, casbin::StringAdapter::new(s)).await.is_ok();
+                    format!("model:{} file:{} string:{}", a, b, c)
+                }));
+                std::fs::remove_file(&path).ok();
+                r.unwrap_or_else(|| "panic".to_string())
+            }
+            "csv.parse" => {
+                // parse_csv_line is private: observe it through StringAdapter::load_policy on a one-column model
+                let line = unesc(f[1]);
+                let rt = &self.rt;
+                let r = catch(move || rt.block_on(async move {
+                    use casbin::{Adapter, Model};
+                    let mut m = casbin::DefaultModel::from_str("[request_definition]\nr = a\n[policy_definition]\np = a\n[policy_effect]\ne = some(where (p.eft == allow))\n[matchers]\nm = r.a == p.a\n").await?;
+                    let mut a = casbin::StringAdapter::new(format!("p, {}", line));
+                    a.load_policy(&mut m).await?;
+                    let rules = m.get_policy("p", "p");
+                    Ok::<String, casbin::Error>(if rules.is_empty() { "none".to_string() } else { let mut v = vec!["p".to_string()]; v.extend(rules[0].iter().cloned()); enc_list(&v) })
+                }));
+                match r { None => "panic".into(), Some(Err(_)) => "err".into(), Some(Ok(s)) => s }
+            }
+            "re" => {
+                let body = unesc(f[1]); let key = unesc(f[2]);
+                let r = catch(move || match regex::Regex::new(&format!("^{}$", body)) {
+                    Err(_) => "invalid".to_string(),
+                    Ok(re) => match re.captures(&key) {
+                        None => "none".to_string(),
+                        Some(c) => format!("match:{}", enc_list(&c.iter().skip(1).map(|m| m.map(|x| x.as_str().to_string()).unwrap_or_default()).collect::<Vec<_>>())),
+                    },
+                });
+                r.unwrap_or_else(|| "panic".to_string())
+            }
             "km" => {
                 use casbin::function_map as fm;
                 let k = unesc(f[2]); let pat = unesc(f[3]);
